@@ -14,6 +14,7 @@ Not decided: accuracy of the CG solve, numerical equality of scaled and unscaled
 from __future__ import annotations
 
 import ast
+import re
 
 from optilint.cfg import cfg_of
 from optilint.model import dotted, walk_local
@@ -255,62 +256,82 @@ def d3(ctx):
         r = socfg.returns()
         e = expand(socfg, r[0], r[0].ast.value) if r else None
         xb = so.params()[0]
-        ok = len(r) == 1 and (same(e, f"objective_func(invScaling * {xb}, {so.params()[1]})"))
+        ip = init.params()                     # self, objective_func, x0, p, ...
+        selfn, objf, x0n = ip[0], ip[1], ip[2]
+        # roles: s = the factor of x0 in the start point handed to the base class, inv = the name defined as 1/s
+        sup = [c for c in calls_in(init) if isinstance(c.func, ast.Attribute) and c.func.attr == "__init__"]
+        s_name = None
+        for c in sup:
+            node = [n for n in icfg.nodes if n.ast is not None and any(x is c for x in ast.walk(n.ast))][0]
+            for a in c.args:
+                if isinstance(a, ast.Name):
+                    ex_ = expand(icfg, node, a, depth=1)
+                    if isinstance(ex_, ast.BinOp) and isinstance(ex_.op, ast.Mult):
+                        for l_, r_ in ((ex_.left, ex_.right), (ex_.right, ex_.left)):
+                            if isinstance(r_, ast.Name) and r_.id == x0n and isinstance(l_, ast.Name):
+                                s_name = l_.id
+        inv_name = None
+        # inv = the factor applied to the scaled iterate inside the scaled objective closure
+        if isinstance(e, ast.Call) and e.args and isinstance(e.args[0], ast.BinOp) and isinstance(e.args[0].op, ast.Mult):
+            for l_, r_ in ((e.args[0].left, e.args[0].right), (e.args[0].right, e.args[0].left)):
+                if isinstance(r_, ast.Name) and r_.id == xb and isinstance(l_, ast.Name):
+                    inv_name = l_.id
+        if not s_name or not inv_name:
+            ctx.undecided(rule, init, None, construct=f"{init.cls.name}:roles", detail=f"scaling variable ({s_name}) / its reciprocal ({inv_name}) not identified")
+            continue
+        ok = len(r) == 1 and (same(e, f"{objf}({inv_name} * {xb}, {so.params()[1]})"))
         ctx.decide(rule, ok, so, r[0].ast if r else None, construct=f"{init.cls.name}:evaluates-at-invScaling*xBar",
                    detail=f"scaled objective = objective_func(invScaling*{xb}, p)",
                    bad_detail=f"scaled objective returns `{src(e)}`, not objective_func(invScaling*{xb}, p)")
         # invScaling = 1/scaling on the scaled branch; both 1 (or ones) on the unscaled branch
         inv_defs = [n for n in icfg.nodes if n.kind == "stmt" and isinstance(n.ast, ast.Assign) and
-                    any(isinstance(t, ast.Name) and t.id == "invScaling" for t in n.ast.targets)]
-        for n in inv_defs:
+                    any(isinstance(t, ast.Name) and t.id == inv_name for t in n.ast.targets)]
+        for k_, n in enumerate(inv_defs):
             v = n.ast.value
             A = Algebra()
             try:
-                good = A.equal(A.lower(v) * A.lower(ast.Name(id="scaling", ctx=ast.Load())), A.const(1))
+                good = A.equal(A.lower(v) * A.lower(ast.Name(id=s_name, ctx=ast.Load())), A.const(1))
             except NotPolynomial:
                 good = False
-            trivial = (const_value(v) == 1.0) or same(v, "np.ones_like(x0)")
+            trivial = (const_value(v) == 1.0) or same(v, f"np.ones_like({x0n})")
             if trivial:
-                sd = single_def(icfg, n, "scaling")
                 # sibling `scaling` on the same branch must be trivial too
                 sdefs = [m for m in icfg.nodes if m.kind == "stmt" and isinstance(m.ast, ast.Assign) and
-                         any(isinstance(t, ast.Name) and t.id == "scaling" for t in m.ast.targets) and
-                         set(map(id, icfg.edge_facts(m))) is not None and
+                         any(isinstance(t, ast.Name) and t.id == s_name for t in m.ast.targets) and
                          [(c.idx, l) for (c, l) in icfg.edge_facts(m)] == [(c.idx, l) for (c, l) in icfg.edge_facts(n)]]
-                good = bool(sdefs) and all(const_value(m.ast.value) == 1.0 or same(m.ast.value, "np.ones_like(x0)") for m in sdefs)
-            ctx.decide(rule, good, init, n.ast, construct=f"{init.cls.name}:invScaling=1/scaling:{src(v)[:30]}",
+                good = bool(sdefs) and all(const_value(m.ast.value) == 1.0 or same(m.ast.value, f"np.ones_like({x0n})") for m in sdefs)
+            ctx.decide(rule, good, init, n.ast, construct=f"{init.cls.name}:invScaling=1/scaling:{'trivial' if trivial else 'reciprocal'}",
                        detail=f"invScaling = {src(v)} is the reciprocal of scaling",
-                       bad_detail=f"invScaling = {src(v)} is not the reciprocal of `scaling` on its branch")
+                       bad_detail=f"invScaling = {src(v)} is not the reciprocal of `{s_name}` on its branch")
         # start point and stored attributes
-        sup = [c for c in calls_in(init) if isinstance(c.func, ast.Attribute) and c.func.attr == "__init__"]
         for c in sup:
             node = [n for n in icfg.nodes if n.ast is not None and any(x is c for x in ast.walk(n.ast))][0]
             f_arg = c.args[0]
-            x_arg = [a for a in c.args if isinstance(a, ast.Name) and "xBar" in a.id or (isinstance(a, ast.Name) and same(expand(icfg, node, a), "scaling * x0"))]
-            okx = any(same(expand(icfg, node, a), "scaling * x0") for a in c.args if isinstance(a, ast.Name))
-            okf = isinstance(f_arg, ast.Name) and f_arg.id == "scaled_objective"
+            okx = any(same(expand(icfg, node, a), f"{s_name} * {x0n}") for a in c.args if isinstance(a, ast.Name))
+            okf = isinstance(f_arg, ast.Name) and f_arg.id == so.name
             ctx.decide(rule, okx and okf, init, c, construct=f"{init.cls.name}:base-init",
                        detail="base class initialised with the scaled objective at scaling*x0",
                        bad_detail=f"base class initialised as `{src(c)[:100]}`")
-        for attr in ("scaling", "invScaling"):
-            st = [s for s in walk_local(init.node) if isinstance(s, ast.Assign) and isinstance(s.targets[0], ast.Attribute)
-                  and s.targets[0].attr == attr and isinstance(s.targets[0].value, ast.Name) and s.targets[0].value.id == "self"]
-            ok = len(st) == 1 and same(st[0].value, attr)
+        for attr, nm_ in (("scaling", s_name), ("invScaling", inv_name)):
+            st = [s_ for s_ in walk_local(init.node) if isinstance(s_, ast.Assign) and isinstance(s_.targets[0], ast.Attribute)
+                  and s_.targets[0].attr == attr and isinstance(s_.targets[0].value, ast.Name) and s_.targets[0].value.id == selfn]
+            ok = len(st) == 1 and same(st[0].value, nm_)
             ctx.decide(rule, ok, init, st[0] if st else None, construct=f"{init.cls.name}:stores-{attr}",
                        detail=f"self.{attr} = {attr}", bad_detail=f"self.{attr} is set to `{src(st[0].value) if st else '?'}`")
         # the preconditioner strategy gets invScaling
         for c in calls_in(init):
             if isinstance(c.func, ast.Name) and c.func.id == "ScaledPrecondStrategy":
-                ok = any(isinstance(a, ast.Name) and a.id == "invScaling" for a in c.args) and not any(isinstance(a, ast.Name) and a.id == "scaling" for a in c.args)
+                ok = any(isinstance(a, ast.Name) and a.id == inv_name for a in c.args) and not any(isinstance(a, ast.Name) and a.id == s_name for a in c.args)
                 ctx.decide(rule, ok, init, c, construct=f"{init.cls.name}:precond-gets-invScaling",
                            detail="ScaledPrecondStrategy(..., invScaling, ...)", bad_detail=f"scaled preconditioner built as `{src(c)[:100]}`")
-        # scaling = sqrt(diag K0)
+        # scaling = sqrt(diag K0), K0 = first preconditioner of the given strategy
         for n in icfg.nodes:
-            if n.kind == "stmt" and isinstance(n.ast, ast.Assign) and isinstance(n.ast.targets[0], ast.Name) and n.ast.targets[0].id == "scaling" \
+            if n.kind == "stmt" and isinstance(n.ast, ast.Assign) and isinstance(n.ast.targets[0], ast.Name) and n.ast.targets[0].id == s_name \
                     and isinstance(n.ast.value, ast.Call) and (dotted(n.ast.value.func) or "").endswith("sqrt"):
-                ok = same(n.ast.value, "np.sqrt(K0.diagonal())")
+                ex_ = expand(icfg, n, n.ast.value)
+                ok = bool(re.fullmatch(r"np\.sqrt\(\w+\.precond_at_attempt\(0\)\.diagonal\(\)\)", src(ex_).replace(" ", "")))
                 ctx.decide(rule, ok, init, n.ast, construct=f"{init.cls.name}:scaling=sqrt(diag K)", detail=src(n.ast),
-                           bad_detail=f"scaling is `{src(n.ast.value)}`, not sqrt of the stiffness diagonal")
+                           bad_detail=f"scaling is `{src(ex_)}`, not sqrt of the diagonal of the first preconditioner")
     # ScaledPrecondStrategy: congruence with the same diagonal, initialised at the unscaled point
     for q, diag in ((f"{OBJ}:ScaledPrecondStrategy", "invScaling"), ("optimism.BoundConstrainedObjective:ScaledPrecondStrategy", "diagScaling")):
         cls = ctx.need(q)
@@ -320,19 +341,25 @@ def d3(ctx):
         ctor = meth.get("__init__")
         if not (pa and ini and ctor):
             raise Incomplete(f"{q}: methods missing")
-        k2 = [s for s in walk_local(pa.node) if isinstance(s, ast.Assign) and isinstance(s.targets[0], ast.Name) and s.targets[0].id == "K2"]
-        ok = False
-        if len(k2) == 1:
-            txt = src(k2[0].value)
-            ok = f"self.{diag}.T * K * self.{diag}" in txt
+        from .common import Unifier
+        up = Unifier(pa)
+        sp_, at_ = pa.params()[0], pa.params()[1]
+        k_def = up.assigns(f"{sp_}.ps.precond_at_attempt({at_})", target="K")
+        k2 = [s_ for s_ in walk_local(pa.node) if isinstance(s_, ast.Assign) and isinstance(s_.targets[0], ast.Name)
+              and any(up.match(x_, f"{sp_}.{diag}.T * K * {sp_}.{diag}") for x_ in ast.walk(s_.value))]
+        ok = len(k_def) == 1 and len(k2) == 1
+        if ok:
+            rets_ = pa.returns()
+            ok = len(rets_) == 1 and isinstance(rets_[0], ast.Name) and rets_[0].id == k2[0].targets[0].id
         ctx.decide(rule, ok, pa, k2[0] if k2 else None, construct=f"{cls.name}:congruence",
                    detail=f"K2 = D^T K D with D = self.{diag}", bad_detail=f"scaled preconditioner is `{src(k2[0].value) if k2 else '?'}`, not D^T K D with one diagonal D")
         c = [c for c in calls_in(ini) if isinstance(c.func, ast.Attribute) and c.func.attr == "initialize"]
-        ok = len(c) == 1 and same(c[0].args[0], f"self.{diag} * x")
+        ok = len(c) == 1 and same(c[0].args[0], f"{ini.params()[0]}.{diag} * {ini.params()[1]}")
         ctx.decide(rule, ok, ini, c[0] if c else None, construct=f"{cls.name}:initialize-at-unscaled-point",
                    detail=f"inner strategy initialised at self.{diag}*x", bad_detail=f"inner strategy initialised at `{src(c[0].args[0]) if c else '?'}`")
         st = [s for s in walk_local(ctor.node) if isinstance(s, ast.Assign) and isinstance(s.targets[0], ast.Attribute) and s.targets[0].attr == diag]
-        ok = len(st) == 1 and "dofScaling" in src(st[0].value) and "sparse_diags" in src(st[0].value)
+        dpar = [p_ for p_ in ctor.params() if "scaling" in p_.lower()]
+        ok = len(st) == 1 and bool(dpar) and dpar[0] in src(st[0].value) and "sparse_diags" in src(st[0].value)
         ctx.decide(rule, ok, ctor, st[0] if st else None, construct=f"{cls.name}:diagonal-from-argument",
                    detail=f"self.{diag} = sparse_diags(dofScaling)", bad_detail=f"self.{diag} = `{src(st[0].value) if st else '?'}`")
 
